@@ -60,6 +60,24 @@ IDS = ["a", "A", "b", "dir/../x", "ü/€\\𝒳 ?#%", "https://example.org/sm/1?
 MORE_IDS = ["/", "..", "a/", ".json", "a ", "‮abc", "x" * 300, "json", "nosj."]
 
 
+GEN_BACKENDS = os.path.join(C.LEAN_DIR, "Basyx", "Gen", "Backends.lean")
+
+
+def translate_backends(ctx=None) -> List[str]:
+    """identifier -> document name mappings of the two persistent stores and the decorators of get_backend (Gen/Backends.lean)"""
+    from translate import backend_tables as B
+    data = B.build(C.REPO)
+    text = B.emit_lean(data)
+    if not os.path.exists(GEN_BACKENDS) or open(GEN_BACKENDS, encoding="utf-8").read() != text:
+        with open(GEN_BACKENDS, "w", encoding="utf-8") as f:
+            f.write(text)
+    return [f"unrecognised source construct: {u}" for u in data["unrecognised"]]
+
+
+def translate(ctx: C.Ctx) -> List[str]:
+    return translate_backends(ctx)
+
+
 # ------------------------------------------------------------------------------------------------ implementation side
 
 def _sdk():
